@@ -1,5 +1,5 @@
 """Observation -> abstract slot (the value domain of spec/Meaning.tla). Trusted projection (DESIGN 4.3)."""
-from vlib import float_to_q, config_json
+from vlib import float_to_q, float_to_qs, config_json
 
 _unit_names = None
 
@@ -19,10 +19,13 @@ def qfield(v):
     f = v.get("f")
     if isinstance(f, str):
         return {"irr": True, "f": f}
-    q = float_to_q(f)
-    if q is None:
+    qs = float_to_qs(f)
+    if not qs:
         return {"irr": True, "f": repr(f)}
-    return {"q": q, "f": repr(f)}
+    out = {"q": qs[0], "f": repr(f)}
+    if len(qs) > 1:
+        out["qs"] = qs
+    return out
 
 
 def split_secs(total):
@@ -80,7 +83,7 @@ def slots_of_step(step):
 
 def trace_slot(slot):
     """the part of a slot that goes into a TLC trace event (no floats, no free text)"""
-    keep = ("k", "q", "irr", "cur", "u", "d", "s", "day", "sod", "off", "zone", "nt", "parts", "digits", "pr", "ts", "bits", "group", "index", "same_as_base")
+    keep = ("k", "q", "qs", "irr", "cur", "u", "d", "s", "day", "sod", "off", "zone", "nt", "parts", "digits", "pr", "ts", "bits", "group", "index", "same_as_base")
     return {k: slot[k] for k in keep if k in slot}
 
 
